@@ -632,7 +632,7 @@ def search_for_paths(logger: ConsolePrinter, processor: EYAMLProcessor,
                     yield YAMLPath(tmp_path)
 
         # Include YAML Merge Keys when include_value_aliases is enabled
-        if include_value_aliases:
+        if include_value_aliases and search_anchors:
             refs = data.merge if hasattr(data, "merge") else []
             for (_, ref_node) in refs:
                 for anchor_name, anchor_node in all_anchors.items():
